@@ -953,6 +953,10 @@ def run(ctx, proofs):
         "codes_seen": {c: stats["code:" + c] for c in codes},
         "cli_findings_displayed": stats["cli_findings_displayed"],
         "sarif_results_checked": stats["sarif_results"],
+        "cli_findings_identical_to_recomputation_from_in_process_label": stats["cli_findings_matched_in_process"],
+        "cli_findings_without_in_process_twin_judged_directly": stats["cli_findings_without_in_process_twin"],
+        "injections_that_still_parse": stats["injections_that_still_parse"],
+        "labels_in_fixed_text_support_templates": stats["labels_in_support_templates"],
         "styles": {k[6:]: v for k, v in stats.items() if k.startswith("style:")},
         "injections": {k[7:]: v for k, v in stats.items() if k.startswith("inject:")},
         "trivia_inserted": {k[7:]: v for k, v in stats.items() if k.startswith("trivia:")},
